@@ -484,6 +484,11 @@ pub fn events(ex: &Exec) -> Vec<&'static str> {
                     let t = &p.trains[s.moved - 1];
                     let n_clear = t.nodes.iter().take(t.idx_free).skip(t.idx_fixed).filter(|n| n.ty == 1).count();
                     let n_arrive = t.nodes.iter().take(t.idx_free).skip(t.idx_fixed).filter(|n| n.ty == 0).count();
+                    // which links does the roll-back hand back (arrive events undone)
+                    let mut ls: Vec<usize> = t.nodes.iter().take(t.idx_free).skip(t.idx_fixed).filter(|n| n.ty == 0).map(|n| n.link).collect();
+                    ls.sort();
+                    ls.dedup();
+                    ev.push(Box::leak(format!("rewind-hands-back-links:{:?}", ls).into_boxed_str()));
                     if n_clear >= 2 {
                         ev.push("rewind-across-two-clears");
                     }
